@@ -288,6 +288,17 @@ func c19WriterLeg(rc *sim.RunCtx, w *world.World) {
 	rc.SigAdd("writer|" + kindA + "|" + kindB)
 	endA := start("A", kindA, true)
 	spinUntil(func() bool { return false }, 300) // let A get going
+	if kindA == "watchdeviations" && t.Bool(1, 2) {
+		// the deviation manager runs and its first cycle meets watcher A, whose client does not read (nobody waits for a
+		// lock yet, so simulated time may pass)
+		rc.Probe("leg-writer-deviation-cycle")
+		dctx, dcancel := contextWithCancel(w)
+		defer dcancel()
+		go w.DS.DeviationMgr(dctx)
+		time.Sleep(31 * time.Second)
+		rc.AddSim(31)
+		spinUntil(func() bool { return false }, 300)
+	}
 	go func() {
 		w.Srv.DeleteDataStore(w.Ctx, &sdcpb.DeleteDataStoreRequest{Name: "nosuch"})
 		mu.Lock()
@@ -300,8 +311,8 @@ func c19WriterLeg(rc *sim.RunCtx, w *world.World) {
 	endB()
 	f := map[string]string{"rpc": kindB, "mode": "writer-queued", "open_stream": kindA, "subs": "0"}
 	// Evidence from the goroutine dump of this bubble (a positive sign, other than "not finished yet", which a busy machine
-	// produces as well): "queued" = a handler of pkg/server waits for the datastore map lock and no goroutine that is inside a
-	// pkg/server call can still run (so nobody is going to release it); "contended" = somebody waits but a holder can run;
+	// produces as well): "queued" = a goroutine of data-server waits for a read/write lock and no goroutine that is inside a
+	// data-server call can still run (so nobody is going to release it); "contended" = somebody waits but a holder can run;
 	// "free" = nobody waits for that lock.
 	lockState := func() (string, string) {
 		buf := make([]byte, 4<<20)
@@ -311,7 +322,7 @@ func c19WriterLeg(rc *sim.RunCtx, w *world.World) {
 		if k := strings.Index(blocks[0], "synctest bubble "); k >= 0 {
 			bubble = strings.SplitN(blocks[0][k:], "]", 2)[0]
 		}
-		const srv = "github.com/sdcio/data-server/pkg/server.(*Server)."
+		const srv = "github.com/sdcio/data-server/pkg/"
 		waiter, canRun := "", false
 		for bi, g := range blocks {
 			lines := strings.Split(g, "\n")
@@ -325,7 +336,7 @@ func c19WriterLeg(rc *sim.RunCtx, w *world.World) {
 			for i := 1; i+2 < len(lines); i += 2 {
 				if (strings.HasPrefix(lines[i], "sync.(*RWMutex).RLock(") || strings.HasPrefix(lines[i], "sync.(*RWMutex).Lock(")) && strings.HasPrefix(lines[i+2], srv) {
 					fn := strings.TrimPrefix(lines[i+2], srv)
-					if j := strings.Index(fn, "("); j >= 0 {
+					if j := strings.LastIndex(fn, "("); j >= 0 {
 						fn = fn[:j]
 					}
 					waiter = fn
